@@ -212,7 +212,7 @@ def run(ctx):
     # current - before a rotation, after a rename-over, after an in-place rewrite
     import wiring
     wired = []
-    for wout, how in zip(wiring.run_wiring(ctx, wiring.cert_configs()), ('command line', 'environment')):
+    for wout, how in zip(wiring.run_wiring(ctx, wiring.cert_configs()), ('command line, canonical paths', 'environment, paths with a "." segment', 'command line, paths with a doubled slash', 'command line, relative paths')):
         if wout.get('err'):
             raise vf.Inconclusive('wiring driver: %s' % wout['err'])
         for pi, ph in enumerate(wout.get('certs') or []):
